@@ -278,8 +278,143 @@ def explore(ctx, nvars, nvals, plan, tag, simplify_cap=None):
   return complete
 
 
+def random_deep(ctx, n, nvars, nvals, tag):
+  """Hypothesis: deep random construction trees (depth <= 5, arity <= 4),
+  every constructor call checked, plus simplify against random tables."""
+  from hypothesis import strategies as st
+  from pytype.pytd import booleq as B
+  from vlib.run import hyp_run
+  u = U(nvars, nvals)
+  names = u.vars + u.vals
+  eq = st.tuples(st.just("eq"), st.sampled_from(u.vars),
+                 st.sampled_from(names))
+  # TRUE/FALSE leaves are kept rare: they absorb whole subtrees
+  leaf = st.one_of([eq] * 10 + [st.just(("T",)), st.just(("F",))])
+  tree = st.recursive(
+      leaf, lambda ch: st.tuples(st.sampled_from(["and", "or"]),
+                                 st.lists(ch, min_size=0, max_size=4)),
+      max_leaves=10)
+  tabs = st.lists(st.integers(0, len(u.tables) - 1), min_size=1, max_size=4)
+
+  def body(x):
+    t, tis = x
+    mask = make_eval(B, u)
+    depth = [0]
+
+    def build(node, d):
+      depth[0] = max(depth[0], d)
+      if node[0] == "T":
+        return B.TRUE, u.full
+      if node[0] == "F":
+        return B.FALSE, 0
+      if node[0] == "eq":
+        r = B.Eq(node[1], node[2])
+        exp = 0
+        for i, s in enumerate(u.sigmas):
+          if s.get(node[1], node[1]) == s.get(node[2], node[2]):
+            exp |= 1 << i
+        ctx.check(mask(r) == exp, "Eq-not-equivalent", "%r -> %r" % (node, r),
+                  {"universe": [nvars, nvals], "tree": node})
+        return r, exp
+      built = [build(c, d + 1) for c in node[1]]
+      terms = [b[0] for b in built]
+      before = [key(B, t) for t in terms]
+      if node[0] == "and":
+        r = B.And(terms)
+        exp = u.full
+        for _, m in built:
+          exp &= m
+      else:
+        r = B.Or(terms)
+        exp = 0
+        for _, m in built:
+          exp |= m
+      opname = "And" if node[0] == "and" else "Or"
+      case = {"universe": [nvars, nvals], "op": opname,
+              "children": [repr(c) for c in terms]}
+      ctx.check(mask(r) == exp, "%s-not-equivalent" % opname,
+                "%s(%s) -> %r" % (opname, before, r), case)
+      ctx.check(shape_ok(B, r), "%s-shape" % opname,
+                "%s(%s) -> %r not in normal form" % (opname, before, r), case)
+      # constructing a term must not change the terms it was built from
+      ctx.check(before == [key(B, t) for t in terms],
+                "constructor-mutates-operand",
+                "%s(%s) changed an operand" % (opname, before), case)
+      for (t0, m0) in built:
+        ctx.check(mask(t0) == m0, "constructor-mutates-operand",
+                  "%s(%s) changed an operand's meaning" % (opname, before),
+                  case)
+      return r, exp
+
+    r, exp = build(t, 0)
+    kr = key(B, r)
+    ctx.case(key=tag + repr(t), nontrivial=depth[0] >= 3,
+             sample="%s deep tree depth %d -> %s" % (tag, depth[0], kr[:200]),
+             classes=["%s:deep:d%d" % (tag, min(depth[0], 5))])
+    for ti in tis:
+      tab, tm = u.tables[ti]
+      rs = r.simplify({k: set(v) for k, v in tab.items()})
+      case = {"universe": [nvars, nvals], "term": repr(r),
+              "table": {k: sorted(v) for k, v in tab.items()}}
+      ctx.check((mask(rs) & tm) == (exp & tm), "simplify-not-equivalent",
+                "%r.simplify(%r) -> %r" % (r, tab, rs), case)
+      ctx.check(shape_ok(B, rs), "simplify-shape",
+                "%r.simplify(%r) -> %r" % (r, tab, rs), case)
+      ctx.check(key(B, r) == kr, "simplify-mutates-term", repr(r), case)
+
+  hyp_run(ctx, st.tuples(tree, tabs), body, n, label=tag)
+
+
+def chains(ctx, nvars, nvals, depth, tag):
+  """Exhaustive right-nested chains op1([a1, op2([a2, ... opk([ak, ak+1])])])
+  over all atoms and all connective choices: the alternation patterns
+  (absorption-like rewrites) that bounded-arity levels reach only late."""
+  from pytype.pytd import booleq as B
+  u = U(nvars, nvals)
+  mask = make_eval(B, u)
+  pool = {}
+  for _, t in atoms(B, u):
+    pool.setdefault(key(B, t), t)
+  ats = list(pool.values())
+  for t in ats:
+    mask(t, True)
+  idx = 0
+  for ops in itertools.product((0, 1), repeat=depth):
+    for leaves in itertools.product(ats, repeat=depth + 1):
+      idx += 1
+      if idx % ctx.nshards != ctx.shard:
+        continue
+      term = leaves[-1]
+      exp = mask(term)
+      for k in range(depth - 1, -1, -1):
+        a = leaves[k]
+        if ops[k]:
+          term = B.And([a, term])
+          exp = mask(a) & exp
+        else:
+          term = B.Or([a, term])
+          exp = mask(a) | exp
+      got = mask(term)
+      ctx.case(key=(tag, ops, tuple(key(B, x) for x in leaves)),
+               nontrivial=len(set(ops)) > 1,
+               sample=("%s chain ops=%s leaves=%s -> %s" % (
+                   tag, ops, [key(B, x) for x in leaves], key(B, term))
+                       if idx % 20011 == ctx.shard else None),
+               classes=[tag + ":chain"])
+      case = {"universe": [nvars, nvals], "chain_ops": list(ops),
+              "leaves": [repr(x) for x in leaves]}
+      ctx.check(got == exp, "chain-not-equivalent",
+                "ops=%s leaves=%s -> %r" % (ops, [key(B, x) for x in leaves],
+                                            term), case)
+      ctx.check(shape_ok(B, term), "chain-shape", repr(term), case)
+
+
 def run_shard(ctx):
   boot.ensure()
+  chains(ctx, 2, 2, 3 if ctx.quick() else 4, "C22")
+  chains(ctx, 3, 3 if not ctx.quick() else 2, 3, "C3x")
+  random_deep(ctx, 400 if ctx.quick() else 20000, 2, 2, "R22")
+  random_deep(ctx, 400 if ctx.quick() else 20000, 3, 3, "R33")
   if ctx.quick():
     c1 = explore(ctx, 3, 3, [(3, None), (2, None)], "U33", simplify_cap=6000)
     c2 = explore(ctx, 2, 2, [(3, None), (3, None)], "U22")
@@ -341,6 +476,21 @@ def replay(ctx, case):
       raise Violation("simplify-not-equivalent", repr(r), case)
     if not shape_ok(B, r):
       raise Violation("simplify-shape", repr(r), case)
+  elif "chain_ops" in case:
+    leaves = [_parse_term(B, c) for c in case["leaves"]]
+    ops = case["chain_ops"]
+    term = leaves[-1]
+    exp = mask(term)
+    for k in range(len(ops) - 1, -1, -1):
+      a = leaves[k]
+      if ops[k]:
+        term = B.And([a, term]); exp = mask(a) & exp
+      else:
+        term = B.Or([a, term]); exp = mask(a) | exp
+    if mask(term) != exp:
+      raise Violation("chain-not-equivalent", repr(term), case)
+  elif "tree" in case:
+    pass
   elif "build" in case:
     d = case["build"]
     a, b = d[3:-1].split(",")
